@@ -71,7 +71,9 @@ class MysqlStream:
 
     async def drain(self) -> None:
         if self._buffer:
-            self.writer.write(self._buffer)
+            # Hand the transport its own copy: it may keep a view of what the socket
+            # did not accept yet, and a bytearray with a live view cannot be cleared
+            self.writer.write(bytes(self._buffer))
             self._buffer.clear()
         await self.writer.drain()
 
